@@ -37,16 +37,38 @@ inductive Result (α : Type) where
   | raised                              -- an assertion of `submit` / `_create_bunches` fired; nothing was sent or reset
   | quiet                               -- update with nothing to send: "Doing nothing."
   | sent (w : Wire α)
+  | failed                              -- a request of this submit was answered with an error (413, 500, connection reset):
+                                        -- the exception propagates out of submit(), the reset block is not reached
 
 inductive Op (α : Type) where
   | createGroup (spec : α)              -- `_create_job_group`: spec appended, JobGroup object appended
   | createJob (spec : α)                -- `_create_job`
   | submit (maxBytes maxN : Nat)        -- `submit(max_bunch_bytesize, max_bunch_size)`
+  | submitFailing (maxBytes maxN k : Nat)   -- the same call, but the k-th request it makes (1-based) is answered with an error
 
 /-- `self._create_bunches(self._job_group_specs, self._job_specs, …)` on the typed `SpecBytes` -/
 def bunchesOf {α : Type} (size : α → Nat) (s : St α) (maxBytes maxN : Nat) : Option (List (List (Typ × α))) :=
   createBunches (fun p => size p.2) (s.groupSpecs.map fun x => (Typ.group, x)) (s.jobSpecs.map fun x => (Typ.job, x))
     maxBytes maxN
+
+/-- the number of HTTP requests a submit makes for these bunches: nothing for an empty update; one request on the fast
+route (no bunch on a new batch = `batches/create`, one bunch = `create-fast` / `update-fast`); otherwise create (batch or
+update) + one `job-groups/create` per bunch holding job groups + one `jobs/create` per bunch holding jobs + commit -/
+def nRequests {α : Type} (created : Bool) (bs : List (List (Typ × α))) : Nat :=
+  match bs with
+  | [] => if created then 0 else 1
+  | [_] => 1
+  | _ => 1 + (bs.filter fun b => b.any fun p => p.1 == Typ.group).length
+           + (bs.filter fun b => b.any fun p => p.1 == Typ.job).length + 1
+
+/-- the normal end of `submit()` for bunches `bs` -/
+def finish {α : Type} (s : St α) (bs : List (List (Typ × α))) : St α × Option (Result α) :=
+  let res : Result α :=
+    if !s.created then .sent ⟨s.groupSpecs.length, s.jobSpecs.length, bs⟩      -- `_batch_spec()` (also when there is no bunch)
+    else if bs.isEmpty then .quiet
+    else .sent ⟨s.nGroups, s.nJobs, bs⟩                                          -- `_update_spec()`
+  -- the reset block at the end of submit(): all six fields
+  (⟨[], 0, [], 0, true⟩, some res)
 
 def step {α : Type} (size : α → Nat) (s : St α) : Op α → St α × Option (Result α)
   | .createGroup x => ({ s with groupSpecs := s.groupSpecs ++ [x], nGroups := s.nGroups + 1 }, none)
@@ -54,13 +76,16 @@ def step {α : Type} (size : α → Nat) (s : St α) : Op α → St α × Option
   | .submit maxBytes maxN =>
     match bunchesOf size s maxBytes maxN with
     | none => (s, some .raised)
+    | some bs => finish s bs
+  | .submitFailing maxBytes maxN k =>
+    match bunchesOf size s maxBytes maxN with          -- the bunches are computed afresh by every call, from the pending specs
+    | none => (s, some .raised)
     | some bs =>
-      let res : Result α :=
-        if !s.created then .sent ⟨s.groupSpecs.length, s.jobSpecs.length, bs⟩      -- `_batch_spec()` (also when there is no bunch)
-        else if bs.isEmpty then .quiet
-        else .sent ⟨s.nGroups, s.nJobs, bs⟩                                          -- `_update_spec()`
-      -- the reset block at the end of submit(): all six fields
-      (⟨[], 0, [], 0, true⟩, some res)
+      if k = 0 ∨ nRequests s.created bs < k then finish s bs       -- there is no k-th request: the submit goes through
+      else
+        -- nothing is reset.  On the slow route of a new batch `batches/create` has already succeeded when a later
+        -- request fails: the batch exists (`self._id` is set), the specs are still pending
+        ({ s with created := s.created || (decide (2 ≤ k) && decide (2 ≤ bs.length)) }, some .failed)
 
 /-- run a script; the results of its submits, oldest first -/
 def run {α : Type} (size : α → Nat) : St α → List (Op α) → St α × List (Result α)
